@@ -97,26 +97,25 @@ func kindName(k int) string {
 	return "?"
 }
 
-
 const vTypeName = "t1"
 
 // stepWorld: session A = {a0 (actor), a1, a2}, session B = {b0}, unjoined n0; entities in A:
 // eOwn (a0's), eOther (a1's), ePers (persistent, owner departed); one registered component type.
 type stepWorld struct {
-	w                  *vWorld
-	a0, a1, a2, b0, n0 *vConn
+	w                   *vWorld
+	a0, a1, a2, b0, n0  *vConn
 	eOwn, eOther, ePers uint32
-	dPid               uint32 // participant id of the departed owner of ePers
-	tReg               uint32 // registered component type id
-	ownPersist         bool   // Persist flag of eOwn (symbolic)
-	compOwn, compOther bool   // component (tReg, eOwn) / (tReg, eOther) present
-	compPers           bool
-	sub0, sub1, sub2   bool // a0/a1/a2 subscribed to tReg
-	hasAction          bool // vikja action "act" on eOwn
-	hasAsset           bool // odal asset on eOwn
-	actSec             int64
-	actNanos           int32
-	poseOwn            [7]float32
+	dPid                uint32 // participant id of the departed owner of ePers
+	tReg                uint32 // registered component type id
+	ownPersist          bool   // Persist flag of eOwn (symbolic)
+	compOwn, compOther  bool   // component (tReg, eOwn) / (tReg, eOther) present
+	compPers            bool
+	sub0, sub1, sub2    bool // a0/a1/a2 subscribed to tReg
+	hasAction           bool // vikja action "act" on eOwn
+	hasAsset            bool // odal asset on eOwn
+	actSec              int64
+	actNanos            int32
+	poseOwn             [7]float32
 }
 
 func vts() *timestamppb.Timestamp { return &timestamppb.Timestamp{Seconds: 1, Nanos: 1} }
@@ -170,12 +169,12 @@ type stepShape struct {
 
 // stepParams holds every symbolic value the pre-state is built from, so that twin worlds share them.
 type stepParams struct {
-	posePers, poseB, poseOwn, poseOther *hagallpb.Pose
-	ownPersist                          bool
+	posePers, poseB, poseOwn, poseOther   *hagallpb.Pose
+	ownPersist                            bool
 	dataOwn, dataOther, dataPers, actData []byte
-	actSec                              int64
-	actNanos                            int32
-	bits                                [8]bool
+	actSec                                int64
+	actNanos                              int32
+	bits                                  [8]bool
 }
 
 func genStepParams(sh stepShape) *stepParams {
@@ -329,7 +328,9 @@ func symTS() *timestamppb.Timestamp {
 	return &timestamppb.Timestamp{Seconds: verifnd.I64(), Nanos: verifnd.I32()}
 }
 
-func symPoint() *dagazpb.Point { return &dagazpb.Point{X: verifnd.F32(), Y: verifnd.F32(), Z: verifnd.F32()} }
+func symPoint() *dagazpb.Point {
+	return &dagazpb.Point{X: verifnd.F32(), Y: verifnd.F32(), Z: verifnd.F32()}
+}
 
 // buildRequest returns an arbitrary request of the given kind: every field symbolic, optional sub-messages nil or present.
 func buildRequest(kind int, allowNilSub bool) *stepReq {
@@ -467,7 +468,7 @@ func buildRequest(kind int, allowNilSub bool) *stepReq {
 
 // stepOut is everything observable after the step.
 type stepOut struct {
-	err                error
+	err                 error
 	own, m1, m2, ob, on []hwebsocket.Msg
 }
 
